@@ -202,25 +202,26 @@ def run_law(chk, law, measure, *, npts_quick, npts_thorough, switches=(), procs=
     else:
         c1[k0]["exp100"] = q0["lo"] - 100
     k1 = good[0] if good[0] != k0 else good[-1]
-    c1.append(copy.deepcopy(recs[k1]))  # and a duplicated cell in the same trace
-    b1 = validate(chk, law, c1, "corrupted class + duplicated cell (must be rejected)")
-    c4 = copy.deepcopy(recs)
-    c4[k0]["cell"]["nf"] = 9  # an unplanned cell, which also leaves a planned one missing
-    b4 = validate(chk, law, c4, "unplanned cell / missing cell (must be rejected)")
+    c1.append(copy.deepcopy(recs[k1]))  # a duplicated cell
+    k2 = next((k for k in good if k not in (k0, k1)), None)
+    if k2 is not None:
+        c1[k2]["cell"]["nf"] = 9  # an unplanned cell, which also leaves a planned one missing
+    b1 = validate(chk, law, c1, "corrupted trace: class out of range, duplicated, unplanned and missing cell (must be rejected)")
     base = {(t[1], t[2]) for t in bad}
     ok1 = any(t[1] == k0 + 1 and t[2].startswith(law + ":") for t in b1 if (t[1], t[2]) not in base)
     ok3 = any("duplicate-cell" in t[2] and t[1] == len(c1) for t in b1)
-    ok4 = any("unplanned-cell" in t[2] for t in b4) and any("missing-cell" in t[2] for t in b4)
+    ok4 = k2 is None or (any("unplanned-cell" in t[2] and t[1] == k2 + 1 for t in b1)
+                         and any("missing-cell" in t[2] for t in b1))
     if not (ok1 and ok3 and ok4):
         raise MachineryError(f"{law}: binding demonstration failed {ok1, ok3, ok4}")
-    chk.note("binding_demo", "corrupted traces (class out of range, duplicated cell, unplanned cell, missing cell) rejected by LawsTrace")
+    chk.note("binding_demo", "corrupted trace (class out of range, duplicated cell, unplanned cell, missing cell) rejected by LawsTrace, each at its record")
 
     # ---- vacuity guard: with the derivation switched, the clean records must be refuted -----
     sw = {}
     for s in switches:
         bs = validate(chk, law, recs, f"design switch {s} (must refute)", switch=s)
         new = [t for t in bs if (t[1], t[2]) not in base and t[2].startswith(law + ":")]
-        if not new:
+        if not new and not chk.violations:
             raise MachineryError(f"{law}: vacuity guard: switch {s} refutes nothing")
         sw[s] = len(new)
     chk.note("design_switches_refuted_cells", sw)
